@@ -1,10 +1,62 @@
-import ZapVerif.Model.Entry
-/-! # C01 — the JSON encoder always emits one well-formed JSON object per entry, on one line -/
+import ZapVerif.Proofs.EntryWF
+/-! # C01 — the JSON encoder always emits one well-formed JSON object per entry, on one line
+
+Model: `Model/Esc.lean` (escaping), `Model/Enc.lean` (the streaming encoder over call trees), `Model/Entry.lean`
+(`Field.AddTo`, metadata rules, `jsonLine`).  Helper lemmas: `Proofs/Enc*.lean`, `Proofs/Entry*.lean`. -/
 namespace ZapVerif.C01
-open ZapVerif ZapVerif.Esc ZapVerif.Json ZapVerif.Enc
+open ZapVerif ZapVerif.Esc ZapVerif.Json ZapVerif.Enc ZapVerif.Entry
 
 /-- whatever the input bytes (hostile, invalid UTF-8, control characters, quotes), the escaped text is a legal
     JSON string body: no raw byte < 0x20, no bare quote, every backslash starts a legal escape -/
 theorem escape_body_safe (s : Bytes) : runD 0 (esc s) = some 0 := escape_ok s.length s
+
+/-- and in particular it contains no raw control byte or line break -/
+theorem escape_no_control (s : Bytes) : ∀ b ∈ esc s, b ≥ 32 :=
+  runD_ge 0 (esc s) (by rw [escape_body_safe]; rfl)
+
+/-- the crux: the encoder decides separators from the LAST BYTE of its buffer (`addElementSeparator`); for every
+    nested call tree with well-formed leaves — objects, arrays, namespaces left open, to any depth, compact or
+    spaced — that streaming machine equals the compositional output function -/
+theorem stream_eq_out (sp : Bool) (calls : List OC) (buf : Bytes) (n : Nat) (first : Bool)
+    (hs : St buf first) (hw : WFo calls) :
+    runO sp ⟨buf, n⟩ calls = ⟨buf ++ (outO sp first calls).1, n + (outO sp first calls).2⟩ :=
+  runO_eq sp calls buf n first hs hw
+
+/-- nil and no-op sub-encoders (level, time, duration, caller, name) still yield exactly one well-formed value
+    after the key: the string / integer fall-back -/
+theorem noop_fallbacks (s : Bytes) (n : Int) :
+    WFj (subOrStr .noop s) ∧ WFj (subOrStr .nilEnc s) ∧ WFj (subOrNanos .noop n) ∧ WFj (subOrNanos .nilEnc n) :=
+  ⟨(subOrStr_ok .noop s trivial).1, (subOrStr_ok .nilEnc s trivial).1,
+   (subOrNanos_ok .noop n trivial).1, (subOrNanos_ok .nilEnc n trivial).1⟩
+
+/-- `Field.AddTo` only ever makes calls with well-formed, control-free leaves — including every failure branch
+    (marshaler error, panicking or nil Stringer / error, reflection failure, error groups) -/
+theorem addTo_wellformed (f : Field) (h : FieldOK f) : WFo (addTo f) ∧ NoCtlO (addTo f) := addTo_good f h
+
+/-- C01, full statement over the model: for every encoder configuration (keys empty / duplicate / needing
+    escapes, nil / no-op / arbitrary sub-encoder results, any line ending), every entry, every With-chain and every
+    call-site field list (any nesting, namespaces left open anywhere, failing marshalers), the emitted line is
+    ONE JSON object followed by the configured line ending; that object is well-formed, contains no byte below
+    0x20 (so it occupies exactly one line), and decodes back to the tree it renders. -/
+theorem jsonLine_wellformed (c : Cfg) (e : Ent) (ctx : List (List Field)) (fields : List Field)
+    (he : EntOK e) (hc : ∀ fs ∈ ctx, ∀ f ∈ fs, FieldOK f) (hf : ∀ f ∈ fields, FieldOK f) :
+    ∃ ms : List (Bytes × J),
+      jsonLine c e ctx fields = render (J.obj ms) ++ c.ending ∧
+      WFj (J.obj ms) ∧
+      (∀ b ∈ render (J.obj ms), b ≥ 32) ∧
+      parseV (size (J.obj ms)) (render (J.obj ms)) = some (J.obj ms, []) := by
+  have hok := entryMembers_ok c e ctx fields he hc hf
+  exact ⟨entryMembers c e ctx fields, jsonLine_eq_render c e ctx fields he hc hf, hok.1,
+    render_ge _ hok.1 hok.2, parse_render _ hok.1⟩
+
+/-- the line ending: SkipLineEnding wins; an empty LineEnding means one "\n" -/
+theorem ending_rule (c : Cfg) :
+    c.ending = (if c.skipLineEnding then [] else if c.lineEnding.isEmpty then [10] else c.lineEnding) := rfl
+
+/-- non-vacuity: hostile key and value, a namespace left open inside an object inside an array, a failing marshaler -/
+example : FieldOK (.arr [107] [AC.obj [OC.ns [34], OC.prim [10] (J.str (esc [255, 34]))]] (some [101])) := by
+  refine ⟨?_, ?_⟩
+  · simp [WFa, WFo, WFj, esc_ok]
+  · simp [NoCtlA, NoCtlO, NoCtlJ]
 
 end ZapVerif.C01
